@@ -67,6 +67,10 @@ class SceneRun:
 
 def run(lines):
     aug = augment(lines)
+    for a in aug:
+        if a.startswith("HANG "):
+            # the crate did not return from a call made while preparing the case (stroke_to_path / flatten)
+            raise ImplDied(a[5:] + "\n# the call did not return within the watchdog's time (hang)")
     impl, di = build.run_sharded(build.RQV, aug)
     model, dm = build.run_sharded(build.DRIVER, aug)
     if dm or len(model) != len(aug):
